@@ -607,6 +607,12 @@ func genOneEthTx(out *trace.W, tbl *prog.Table, r *rand.Rand, tid string, blocks
 	out.Emit(g)
 
 	created := 0
+	type sentTx struct {
+		bz        []byte
+		t         trace.M
+		intrinsic uint64
+	}
+	var sent []sentTx
 	for b := 0; b < blocks; b++ {
 		n := r.Intn(5)
 		if r.Intn(6) == 0 {
@@ -631,10 +637,19 @@ func genOneEthTx(out *trace.W, tbl *prog.Table, r *rand.Rand, tid string, blocks
 				ps = append(ps, pend{kind: "Cosmos", t: t})
 				continue
 			}
+			if len(sent) > 0 && r.Intn(14) == 0 {
+				// byte-identical replay of a transaction sent earlier (this block or any earlier one)
+				old := sent[r.Intn(len(sent))]
+				txs = append(txs, old.bz)
+				ps = append(ps, pend{kind: "Eth", t: old.t, intrinsic: old.intrinsic, key: obs.TxKey(old.bz), class: "replay"})
+				stats["replays"]++
+				continue
+			}
 			s := w.genEthSpec(nextNonce, baseFee, &created)
 			bz, t, ig, _ := w.BuildEth(s)
 			txs = append(txs, bz)
 			ps = append(ps, pend{kind: "Eth", t: t, intrinsic: ig, key: obs.TxKey(bz), class: s.Class})
+			sent = append(sent, sentTx{bz: bz, t: t, intrinsic: ig})
 		}
 		obs.Drain()
 		h := c.Height + 1
